@@ -193,7 +193,7 @@ func (r *Run) merge(x *Rec, scope string, lf leafInfo, scopeOut, scopeNT map[uin
 		r.samples = append(r.samples, x.sample)
 	}
 	for _, f := range x.fails {
-		key := f.Class
+		key := f.Class + "\x00" + f.Known // a known-finding match and an unexplained failure of the same class stay apart
 		v, ok := r.viol[key]
 		if !ok || (v.Scope == scope && lf.seq < v.Seq) {
 			var d any
@@ -460,7 +460,7 @@ func (r *Run) Finish() int {
 			}
 			v.Repro = fmt.Sprintf("%d/5", same)
 		}
-		sum := sha1.Sum([]byte(r.ID + v.Scope + k))
+		sum := sha1.Sum([]byte(r.ID + v.Scope + v.Class))
 		path := filepath.Join(outRoot, "replays", fmt.Sprintf("%s-%s.json", r.ID, hex.EncodeToString(sum[:6])))
 		rf := replayFile{Property: r.ID, Scope: v.Scope, Vector: v.Vector, Class: v.Class, Detail: v.Detail, Case: v.Describe, Count: v.Count, Tier: r.Tier, Repro: v.Repro}
 		if raw, ok := v.Describe.(json.RawMessage); ok && v.Vector == nil {
